@@ -131,8 +131,36 @@ def variants(path, per_seed=3):
     if _NO_NESTED_VARIANTS:
         return []       # inside the child that derives variants: item pools are built from committed seeds only
     if path not in _VARIANTS:
-        _VARIANTS[path] = core.call_isolated(_compute_variants, path, per_seed) if objects(path) else []
+        _VARIANTS[path] = _with_committed(path, core.call_isolated(_compute_variants, path, per_seed) if objects(path) else [])
     return _VARIANTS[path]
+
+
+_COMMITTED_VARIANTS = None
+
+
+def _with_committed(path, derived):
+    """The variants derived on the tree under test plus those committed in corpus/variants.json (derived once on the
+    pinned tree, so that a change in a compose() cannot hide the very inputs that would expose it); committed ones
+    only as far as the tree under test still accepts them."""
+    global _COMMITTED_VARIANTS  # pylint: disable=global-statement
+    if _COMMITTED_VARIANTS is None:
+        try:
+            with open(os.path.join(core.VERIF_DIR, 'corpus', 'variants.json')) as handle:
+                _COMMITTED_VARIANTS = json.load(handle)
+        except OSError:
+            _COMMITTED_VARIANTS = {}
+    cls = resolve(path)
+    out = list(derived)
+    for hexdata in _COMMITTED_VARIANTS.get(path, ()):
+        raw = bytes.fromhex(hexdata)
+        if raw in out or cls is None:
+            continue
+        try:
+            cls.parse_exact_size(raw)
+        except Exception:  # no longer accepted  # pylint: disable=broad-except
+            continue
+        out.append(raw)
+    return out
 
 
 _NO_NESTED_VARIANTS = False
@@ -150,7 +178,7 @@ def warm_variants():
     todo = [path for path in class_paths() if path not in _VARIANTS]
     for path in list(todo):
         if not objects(path):
-            _VARIANTS[path] = []
+            _VARIANTS[path] = _with_committed(path, [])
             todo.remove(path)
     if len(todo) < 8:
         return
@@ -158,7 +186,7 @@ def warm_variants():
     from concurrent.futures import ProcessPoolExecutor
     with ProcessPoolExecutor(max_workers=core.jobs(), mp_context=multiprocessing.get_context('fork')) as pool:
         for path, found in pool.map(_variants_task, todo, chunksize=4):
-            _VARIANTS[path] = found
+            _VARIANTS[path] = _with_committed(path, found)
 
 
 def _compute_variants(path, per_seed):
